@@ -169,9 +169,14 @@ SUBCHECKS = [
     SubCheck("fast", evaluate, strategy=s_fast, examples=(3000, 30000), shards=(16, 16),
              floors={"accept": 150, "reject:branching": 60, "reject:deg1": 40, "reject:dead_vertex": 25,
                      "reject:check_only": 40}, rule=RULE),
+    SubCheck("fuzz_normal", evaluate, fuzz=("C06", (4000, 250000)), shards=(2, 8),
+             rule="atheris/libFuzzer campaign: bytes are decoded into (graph from a pool of 64 arc subsets, start "
+                  "vertex, string, options) and judged by the same oracle as the Hypothesis sub-check; coverage "
+                  "feedback from dsw only; even shards start from an empty corpus, odd shards from 48 random inputs",
+             timeout=3600.0),
 ]
 
-TECHNIQUE = ("property-based testing (Hypothesis): acceptance/rejection of generated strings against an independent "
+TECHNIQUE = ("property-based testing (Hypothesis) and coverage-guided fuzzing (atheris): acceptance/rejection of generated strings against an independent "
              "walk predicate and VT formula, with per-rejection-site class floors")
 LEVEL_TEXT = ("Generated search, 8,000 / 80,000 cases: both directions of the equivalence (every walk with a "
               "matching or absent check is decoded to exactly the requested width; every other string - edited "
